@@ -207,7 +207,7 @@ pub fn run(op: &str, args: &[&str]) -> Option<String> {
             let b = unhex(args[0])?;
             Some(match deserialize_partial::<SubField>(&b) {
                 Ok((f, n)) => format!("OK {} {}", n, sub_str(&f)),
-                Err(_) => "ERR".into(),
+                Err(e) => crate::err_shown(&e),
             })
         }
         "subfield_decs" => {
@@ -217,7 +217,7 @@ pub fn run(op: &str, args: &[&str]) -> Option<String> {
             let b = unhex(args[0])?;
             Some(match deserialize::<SubField>(&b) {
                 Ok(f) => format!("OK {}", sub_str(&f)),
-                Err(_) => "ERR".into(),
+                Err(e) => crate::err_shown(&e),
             })
         }
         "subfield_rt" => {
@@ -234,11 +234,11 @@ pub fn run(op: &str, args: &[&str]) -> Option<String> {
             let bs = serialize(&f);
             let back = match deserialize_partial::<SubField>(&bs) {
                 Ok((g, n)) => format!("{} {}", (sub_str(&g) == orig) as u8, n),
-                Err(_) => "ERR".into(),
+                Err(e) => crate::err_shown(&e),
             };
             let strict = match deserialize::<SubField>(&bs) {
                 Ok(g) => format!("{}", (sub_str(&g) == orig) as u8),
-                Err(_) => "ERR".into(),
+                Err(e) => crate::err_shown(&e),
             };
             Some(format!("OK {} {} {} {}", show_hex(&bs), bs.len(), back, strict))
         }
